@@ -93,10 +93,12 @@ mod imp {
                 let mut singles: Vec<ChainTracker> = (0..n_chains)
                     .map(|c| ChainTracker::new(n_params, &init[c * n_params..(c + 1) * n_params]))
                     .collect();
+                let mut p_hist: Vec<Vec<f64>> = vec![Vec::new(); n_chains];
                 for s in steps.iter() {
                     multi.step(s.as_slice()).unwrap();
                     for c in 0..n_chains {
                         singles[c].step(&s[c * n_params..(c + 1) * n_params]).unwrap();
+                        p_hist[c].push(singles[c].stats().p_accept as f64);
                     }
                 }
                 let stats: Vec<ChainStats> = singles.iter().map(|t| t.stats()).collect();
@@ -107,6 +109,7 @@ mod imp {
                     "collect_rhat": nums32(r1.as_slice().unwrap()),
                     "multi_rhat": nums32(r2.as_slice().unwrap()),
                     "multi_p_accept": num(multi.p_accept as f64),
+                    "p_hist": p_hist,
                     "chains": stats.iter().map(|s| json!({"n": s.n, "p_accept": num(s.p_accept as f64),
                         "mean": nums32(s.mean.as_slice().unwrap()), "sm2": nums32(s.sm2.as_slice().unwrap())})).collect::<Vec<_>>(),
                 })
@@ -124,9 +127,32 @@ mod imp {
 
 #[cfg(not(kani))]
 mod imp2 {
+    use burn::backend::{Autodiff, NdArray};
+    use burn::prelude::*;
+    use mini_mcmc::distributions::DiffableGaussian2D;
+    use mini_mcmc::hmc::HMC;
     use serde_json::{json, Value};
+
+    type B32 = Autodiff<NdArray<f32>>;
+
+    fn hmc_run(seed: u64, n_collect: usize) -> Vec<f32> {
+        let target = DiffableGaussian2D::new([0.0_f32, 1.0], [[4.0, 2.0], [2.0, 3.0]]);
+        let mut s = HMC::<f32, B32, DiffableGaussian2D<f32>>::new(target, vec![vec![0.5_f32, -0.5]; 2], 0.1, 3).set_seed(seed);
+        let out: Tensor<B32, 3> = s.run(n_collect, 0);
+        out.to_data().to_vec::<f32>().unwrap()
+    }
+
     pub fn run(case: &Value) -> Value {
-        json!({"error": format!("unknown case {}", case["case"])})
+        match case["case"].as_str().unwrap_or("") {
+            "hmc_same_seed_twice" => {
+                let seed = case["seed"].as_u64().unwrap_or(42);
+                let n = case["n_collect"].as_u64().unwrap_or(3) as usize;
+                let a = hmc_run(seed, n);
+                let b = hmc_run(seed, n);
+                json!({"equal": a.iter().zip(b.iter()).all(|(x, y)| x.to_bits() == y.to_bits()), "first": a, "second": b})
+            }
+            _ => json!({"error": format!("unknown case {}", case["case"])}),
+        }
     }
 }
 
